@@ -316,22 +316,32 @@ where
         cell_key: CellKey,
         vertex: Vertex<K::Scalar, U, D>,
     ) -> Result<FlipInfo<D>, FlipError> {
+        // The flip edits the `Tds` directly: the insertion caches no longer describe it.
+        self.invalidate_insertion_caches();
         self.tri.flip_k1_insert(cell_key, vertex)
     }
 
     fn flip_k1_remove(&mut self, vertex_key: VertexKey) -> Result<FlipInfo<D>, FlipError> {
+        // The flip edits the `Tds` directly: the insertion caches no longer describe it.
+        self.invalidate_insertion_caches();
         self.tri.flip_k1_remove(vertex_key)
     }
 
     fn flip_k2(&mut self, facet: FacetHandle) -> Result<FlipInfo<D>, FlipError> {
+        // The flip edits the `Tds` directly: the insertion caches no longer describe it.
+        self.invalidate_insertion_caches();
         self.tri.flip_k2(facet)
     }
 
     fn flip_k3(&mut self, ridge: RidgeHandle) -> Result<FlipInfo<D>, FlipError> {
+        // The flip edits the `Tds` directly: the insertion caches no longer describe it.
+        self.invalidate_insertion_caches();
         self.tri.flip_k3(ridge)
     }
 
     fn flip_k2_inverse_from_edge(&mut self, edge: EdgeKey) -> Result<FlipInfo<D>, FlipError> {
+        // The flip edits the `Tds` directly: the insertion caches no longer describe it.
+        self.invalidate_insertion_caches();
         self.tri.flip_k2_inverse_from_edge(edge)
     }
 
@@ -339,6 +349,8 @@ where
         &mut self,
         triangle: TriangleHandle,
     ) -> Result<FlipInfo<D>, FlipError> {
+        // The flip edits the `Tds` directly: the insertion caches no longer describe it.
+        self.invalidate_insertion_caches();
         self.tri.flip_k3_inverse_from_triangle(triangle)
     }
 }
